@@ -197,13 +197,28 @@ type oracle struct {
 	res      *vh.Result
 	small    []point
 	override string // when set, failures of step() are filed under this class
+	perClass map[string]int
 }
 
 func (o *oracle) fail(class, desc string, rp any) {
 	if o.override != "" {
 		class = o.override
 	}
-	o.res.Fail(class, desc, rp)
+	o.report(class, desc, rp)
+}
+
+// vh.Result keeps the first 200 failures only: keep at most 12 per class so that the many cases of a known
+// finding can never crowd out a failure of another class (the rest is counted in the distribution)
+func (o *oracle) report(class, desc string, rp any) {
+	if o.perClass == nil {
+		o.perClass = map[string]int{}
+	}
+	o.perClass[class]++
+	if o.perClass[class] <= 12 {
+		o.res.Fail(class, desc, rp)
+	} else {
+		o.res.Distribution["oracle_fail:"+class]++
+	}
 }
 
 // checks S1, S2, S4(step) for one accepted update cur -> p (hasCur=false: first update from the zero state)
@@ -237,7 +252,7 @@ func (o *oracle) history(what string, acc []P, rp any, stale ...bool) {
 				viaStale = viaStale || stale[k]
 			}
 			if viaStale {
-				o.res.Fail(classStale, fmt.Sprintf("%s: position %v taken at update %d and again at update %d, when an accepted suffrage-confirm INIT voteproof left an older ACCEPT voteproof as the cap; accepted updates %v", what, acc[j], i, j, acc), rp)
+				o.report(classStale, fmt.Sprintf("%s: position %v taken at update %d and again at update %d, when an accepted suffrage-confirm INIT voteproof left an older ACCEPT voteproof as the cap; accepted updates %v", what, acc[j], i, j, acc), rp)
 				return
 			}
 			// the documented finding: between the two takes the position moved backward for a suffrage-confirm result
@@ -248,9 +263,9 @@ func (o *oracle) history(what string, acc []P, rp any, stale ...bool) {
 				}
 			}
 			if backward {
-				o.res.Fail("retake-after-sc-backward-move", fmt.Sprintf("%s: position %v taken at update %d and again at update %d, after a backward move to a suffrage-confirm result; accepted updates %v", what, acc[j], i, j, acc), rp)
+				o.report("retake-after-sc-backward-move", fmt.Sprintf("%s: position %v taken at update %d and again at update %d, after a backward move to a suffrage-confirm result; accepted updates %v", what, acc[j], i, j, acc), rp)
 			} else {
-				o.res.Fail("retake-history", fmt.Sprintf("%s: position %v taken at update %d and again at update %d; accepted updates %v", what, acc[j], i, j, acc), rp)
+				o.report("retake-history", fmt.Sprintf("%s: position %v taken at update %d and again at update %d; accepted updates %v", what, acc[j], i, j, acc), rp)
 			}
 			return
 		}
@@ -266,11 +281,11 @@ func (o *oracle) lowerRejected(l isaac.LastPoint, cur P) {
 		sp := base.NewStagePoint(base.RawPoint(pt.H, pt.R), stages[pt.S])
 		for _, sc := range []bool{false, true} {
 			if isaac.IsNewBallot(l, sp, sc) {
-				o.res.Fail("lower-height-ballot-accepted", fmt.Sprintf("IsNewBallot(%v, %v, sc=%v) = true", cur, sp, sc), replaySeq{Kind: "setlastpoint", Seq: []P{cur}})
+				o.report("lower-height-ballot-accepted", fmt.Sprintf("IsNewBallot(%v, %v, sc=%v) = true", cur, sp, sc), replaySeq{Kind: "setlastpoint", Seq: []P{cur}})
 			}
 			for _, maj := range []bool{false, true} {
 				if isaac.IsNewVoteproofbyPoint(l, sp, maj, sc) {
-					o.res.Fail("lower-height-voteproof-accepted", fmt.Sprintf("IsNewVoteproofbyPoint(%v, %v, maj=%v, sc=%v) = true", cur, sp, maj, sc), replaySeq{Kind: "setlastpoint", Seq: []P{cur}})
+					o.report("lower-height-voteproof-accepted", fmt.Sprintf("IsNewVoteproofbyPoint(%v, %v, maj=%v, sc=%v) = true", cur, sp, maj, sc), replaySeq{Kind: "setlastpoint", Seq: []P{cur}})
 				}
 			}
 		}
@@ -378,7 +393,7 @@ func runHandler(ops []hop, o *oracle, useOracle bool) [][]uint64 {
 			if useOracle {
 				np, _ := vpPos(vp)
 				if hasCur && np.H < cur.H && isnew {
-					o.res.Fail("lower-height-voteproof-accepted", fmt.Sprintf("LastVoteproofsHandler.IsNew(%v) = true against %v", np, cur), rp)
+					o.report("lower-height-voteproof-accepted", fmt.Sprintf("LastVoteproofsHandler.IsNew(%v) = true against %v", np, cur), rp)
 				}
 				capAfter := h.Last().Cap()
 				if capAfter != nil && (capBefore == nil || capAfter.ID() != capBefore.ID()) {
@@ -393,7 +408,7 @@ func runHandler(ops []hop, o *oracle, useOracle bool) [][]uint64 {
 					stale = append(stale, isStale)
 				}
 				if capAfter == nil && capBefore != nil {
-					o.res.Fail("height-decreased", "LastVoteproofsHandler.Set: last voteproofs emptied", rp)
+					o.report("height-decreased", "LastVoteproofsHandler.Set: last voteproofs emptied", rp)
 				}
 			}
 		case 1:
@@ -546,11 +561,11 @@ func main() {
 			m.add(got)
 			want := lf.Before(s.sp(), s.SC)
 			if got != want {
-				res.Fail("setlastpoint-not-before", fmt.Sprintf("Ballotbox.SetLastPoint(%v) after %v = %v, LastPoint.Before = %v", s, f, got, want), replaySeq{Kind: "setlastpoint", Seq: []P{f, s}})
+				orc.report("setlastpoint-not-before", fmt.Sprintf("Ballotbox.SetLastPoint(%v) after %v = %v, LastPoint.Before = %v", s, f, got, want), replaySeq{Kind: "setlastpoint", Seq: []P{f, s}})
 			}
 			st, ok := fromLP(b2.LastPoint())
 			if !ok || (got && st != s) || (!got && st != f) {
-				res.Fail("setlastpoint-state", fmt.Sprintf("Ballotbox.LastPoint() = %v after SetLastPoint(%v), SetLastPoint(%v)=%v", st, f, s, got), replaySeq{Kind: "setlastpoint", Seq: []P{f, s}})
+				orc.report("setlastpoint-state", fmt.Sprintf("Ballotbox.LastPoint() = %v after SetLastPoint(%v), SetLastPoint(%v)=%v", st, f, s, got), replaySeq{Kind: "setlastpoint", Seq: []P{f, s}})
 			}
 			res.Evaluations++
 		}
@@ -727,9 +742,9 @@ func runBoxSeq(seq []P, o *oracle, cases *vh.Cases, addModel bool) {
 		st, _ := fromLP(after)
 		switch {
 		case got && st != p:
-			o.res.Fail("setlastpoint-state", fmt.Sprintf("SetLastPoint(%v) = true but LastPoint() = %v", p, st), rp)
+			o.report("setlastpoint-state", fmt.Sprintf("SetLastPoint(%v) = true but LastPoint() = %v", p, st), rp)
 		case !got && stateIdx(after) != stateIdx(before):
-			o.res.Fail("setlastpoint-state", fmt.Sprintf("SetLastPoint(%v) = false but LastPoint() changed to %v", p, st), rp)
+			o.report("setlastpoint-state", fmt.Sprintf("SetLastPoint(%v) = false but LastPoint() changed to %v", p, st), rp)
 		}
 		if got {
 			if hasCur && p.H == cur.H && p.earlierThan(cur) {
